@@ -25,10 +25,12 @@ MUTANTS = [
     {'name': 'fallback-narrow', 'rule': 'D6.fallback', 'file': G, 'old': "        except Exception as error:", 'new': "        except ValueError as error:"},
     {'name': 'get-instance-returns-obj', 'rule': 'D7.clone', 'file': 'utils.py', 'old': "        instance = obj(**kwargs)\n", 'new': "        instance = obj\n"},
     {'name': 'univariate-init-unrecorded', 'rule': 'D7.clone', 'file': UB, 'old': "    @store_args\n    def __init__(\n        self,\n        candidates=None,", 'new': "    def __init__(\n        self,\n        candidates=None,"},
+    {'name': 'bug-like-failures-bypass-fallback', 'rule': 'D6.fallback', 'file': G, 'old': '        except Exception as error:\n            univariate = self._fit_with_fallback_distribution(', 'new': '        except (AttributeError, NotImplementedError):\n            raise\n        except Exception as error:\n            univariate = self._fit_with_fallback_distribution('},
 ]
 REWRITES = [
     {'name': 'flipped-compare', 'file': S, 'old': "            if ks < best_ks:", 'new': "            if best_ks > ks:"},
     {'name': 'float-inf', 'file': S, 'old': "    best_ks = np.inf\n", 'new': "    best_ks = float('inf')\n"},
     {'name': 'subscript-statistic', 'file': S, 'old': "            ks, _ = kstest(X, instance.cdf)", 'new': "            ks = kstest(X, instance.cdf)[0]"},
     {'name': 'handler-continue', 'file': S, 'old': "            # Distribution not supported\n            pass", 'new': "            # Distribution not supported\n            continue"},
+    {'name': 'keyboard-interrupt-passes', 'file': G, 'old': '        except Exception as error:\n            univariate = self._fit_with_fallback_distribution(', 'new': '        except KeyboardInterrupt:\n            raise\n        except Exception as error:\n            univariate = self._fit_with_fallback_distribution('},
 ]
